@@ -301,6 +301,9 @@ func (x *Exec) isIgnorableDefer(cc *ssa.CallCommon) bool {
 	} else if f := cc.StaticCallee(); f != nil {
 		name = f.Name()
 	}
+	if f := cc.StaticCallee(); f != nil && f.Pkg != nil && f.Pkg.Pkg.Path() == "github.com/cosmos/cosmos-sdk/telemetry" {
+		return true // metrics only (dropped by the translation like events and logging)
+	}
 	return name == "Close"
 }
 
@@ -308,6 +311,15 @@ func (x *Exec) isIgnorableDefer(cc *ssa.CallCommon) bool {
 // (no effect); it only yields an obligation when the function is declared nopanic.
 func (x *Exec) panicPath(st *State, fr *frame, why string) {
 	x.paths++
+	if x.con != nil && x.con.PanicHyp != nil && x.entry != nil {
+		// conditional panic freedom: under the stated hypothesis (over the entry state) no path panics
+		env := x.topEnv(x.entry, x.fn.String()+" nopanic-lib")
+		env.cur = x.entry
+		hyp := env.term(x.con.PanicHyp.Sx)
+		x.nSafe++
+		x.oblig(&Obligation{Name: fmt.Sprintf("safe.%s.explicit#%d", x.con.PanicHyp.Label, x.nSafe), Kind: "safe", Label: x.con.PanicHyp.Label,
+			Hyps: append(append([]string(nil), st.pc...), hyp), Goal: "false", Trace: strings.Join(st.trace, " "), Src: why + " under " + x.con.PanicHyp.Src})
+	}
 	if x.con != nil && x.con.NoPanic {
 		x.nSafe++
 		x.oblig(&Obligation{Name: fmt.Sprintf("safe.nopanic#%d", x.nSafe), Kind: "safe", Label: "nopanic",
